@@ -406,7 +406,7 @@ pub fn run(ctx: &mut Ctx) -> Result<(), Violation> {
     ctx.assumptions = vec!["libsodium 1.0.18's decision is the reference for strictness".into(), "RFC 8032 BigUint model pinned by §7.1 and §7.3 vectors".into()];
     let seed = ctx.seed;
     let l = ctx.tier.pick(320usize, 800);
-    let k = ctx.tier.pick(2usize, 8);
+    let k = ctx.tier.pick(2usize, 24);
     let mut pos: Vec<PosCase> = vec![];
     let mut lens: Vec<usize> = (0..=l).collect();
     lens.extend_from_slice(&[1024, 65536]);
@@ -435,8 +435,8 @@ pub fn run(ctx: &mut Ctx) -> Result<(), Violation> {
         check_pos(c).map_err(|m| Violation::new("C06", "positive", m, serde_json::to_value(c).unwrap()))
     })?;
     // negative family
-    let n_full = ctx.tier.pick(32usize, 400);
-    let n_sub = ctx.tier.pick(800usize, 6000);
+    let n_full = ctx.tier.pick(32usize, 1500);
+    let n_sub = ctx.tier.pick(800usize, 20_000);
     let groups: Vec<usize> = (0..n_full + n_sub).collect();
     ctx.par_each(&groups, |_, &gi, ev| {
         let mut f = Fill::new(seed, &format!("C06:neg:{gi}"));
@@ -456,7 +456,7 @@ pub fn run(ctx: &mut Ctx) -> Result<(), Violation> {
         Ok(())
     })?;
     let mut f = ctx.fill("tables");
-    let table = torsion_and_tables(&mut f, ctx.tier.pick(64, 480));
+    let table = torsion_and_tables(&mut f, ctx.tier.pick(64, 2000));
     ctx.par_each(&table, |_, c, ev| {
         ev.eval(1);
         let accepted = check_neg(c).map_err(|m| Violation::new("C06", "negative", m, serde_json::to_value(c).unwrap()))?;
